@@ -490,7 +490,20 @@ func (api *API) mapDecodeSlice(ctx context.Context, mapVal any, value reflect.Va
 	if valueType.AssignableTo(bytesType) {
 		fieldValStr, ok := mapVal.(string)
 		if !ok {
-			return ierrors.Errorf("non string value in map when decoding a byte slice, got %T instead", mapVal)
+			// a byte slice whose type settings carry an object type is written by the encoder as an object
+			// holding the hex string (mapEncodeSlice), like a byte array.
+			m, isMap := mapVal.(map[string]any)
+			if ts.ObjectType() == nil || !isMap {
+				return ierrors.Errorf("non string value in map when decoding a byte slice, got %T instead", mapVal)
+			}
+			fieldKey := keyDefaultSliceArray
+			if ts.fieldKey != nil {
+				fieldKey = *ts.fieldKey
+			}
+			fieldValStr, ok = m[fieldKey].(string)
+			if !ok {
+				return ierrors.Errorf("non string value for key %s when decoding a byte slice, got %T instead", fieldKey, m[fieldKey])
+			}
 		}
 		byteSlice, err := DecodeHex(fieldValStr)
 		if err != nil {
